@@ -256,7 +256,7 @@ func C14(c *Ctx) {
 				}
 			}
 			if ms, ok := buf.(*ssa.MakeSlice); ok {
-				if n, isC := ConstInt(ms.Len); !isC || n < 16 {
+				if lowerBoundInt(ms.Len, 0) < 16 {
 					fresh = false
 				}
 			}
@@ -597,4 +597,57 @@ func concatFormat(v ssa.Value, fn *ssa.Function, d int) string {
 		}
 	}
 	return ""
+}
+
+// lowerBoundInt: a lower bound of an integer value that is a constant or a
+// choice between constants and values an edge condition bounds from below
+// (`size := 32; if n > size { size = n }`); -1 when none is known.
+func lowerBoundInt(v ssa.Value, d int) int64 {
+	if k, isC := ConstInt(v); isC {
+		return k
+	}
+	if cv, ok := v.(*ssa.Convert); ok && d < 4 {
+		return lowerBoundInt(cv.X, d+1)
+	}
+	phi, ok := v.(*ssa.Phi)
+	if !ok || d > 3 {
+		return -1
+	}
+	lb := int64(1 << 40)
+	for i, e := range phi.Edges {
+		b := lowerBoundInt(e, d+1)
+		if b < 0 {
+			for _, f := range append(append([]Fact{}, FactsAt(phi.Block().Preds[i])...), FactsAtEdge(phi.Block().Preds[i], phi.Block())...) {
+				rel := f.Rel()
+				if k, isC := ConstInt(rel.Y); isC && rel.X == e {
+					switch rel.Op {
+					case token.GTR:
+						if k+1 > b {
+							b = k + 1
+						}
+					case token.GEQ:
+						if k > b {
+							b = k
+						}
+					}
+				}
+				if k, isC := ConstInt(rel.X); isC && rel.Y == e {
+					switch rel.Op {
+					case token.LSS:
+						if k+1 > b {
+							b = k + 1
+						}
+					case token.LEQ:
+						if k > b {
+							b = k
+						}
+					}
+				}
+			}
+		}
+		if b < lb {
+			lb = b
+		}
+	}
+	return lb
 }
